@@ -1,5 +1,6 @@
 import AnnVerif.Model.DriverUtil
 import AnnVerif.Model.Sync
+import AnnVerif.Model.Handoff
 open AnnVerif AnnVerif.Drv AnnVerif.VoteSet AnnVerif.Block AnnVerif.Sync
 
 structure DSt where
@@ -11,6 +12,7 @@ structure DSt where
   sigs : List (Nat × Vote × Bool) := []
   peeked : Option (Option Served × Option Served) := none
   dead : Bool := true
+  handoff : Handoff.Cfg := Handoff.repaired
 
 def parseVal (w : String) : Option Validator :=
   match w.splitOn ":" with
@@ -61,7 +63,17 @@ def step (s : DSt) (line : String) : DSt × String :=
   match ws with
   | "cfg" :: _ =>
     ({ s with cfg := ⟨⟨g "checkValHash" != "0", ⟨true, true, g "nilCommit" != "0", g "slotCheck" != "0"⟩⟩,
-                      g "redoTolerant" != "0", g "dropsIncomplete" != "0"⟩ }, "ok")
+                      g "redoTolerant" != "0", g "dropsIncomplete" != "0"⟩,
+              handoff := ⟨g "handoffNonBlocking" != "0"⟩ }, "ok")
+  | "chain" :: "nodrain=1" :: _ => ({ s with dead := true }, "ok")
+  | "handoff" :: _ =>
+    -- the response arrives, its goroutine takes the pool lock, the reactor's next tick wants it too
+    match Handoff.runActs s.handoff Handoff.early [.vArrive, .vLock, .sTick] with
+    | some st =>
+      (match Handoff.runActs s.handoff st [.vHandoff, .sLock] with
+       | some _ => (s, "returned sync=returned")
+       | none => (s, "blocked sync=blocked"))
+    | none => (s, "bad-op")
   | "live-sync" :: _ => (s, "caught=1 forged=0")
   | "live-end" :: _ => (s, "ok")
   | "receive-panic" :: _ => (s, "no-panic")
